@@ -70,6 +70,20 @@ def c04_job(chk, rng, i):
                 pat = ("plus", pat)
             case["rules"].insert(rng.below(len(case["rules"]) + 1),
                                  {"scs": None, "bol": False, "pat": pat, "trail": None, "act": []})
+    shared = (i % 8 == 5)
+    if shared:
+        # NUL shares its equivalence class with other bytes (here the high half of the
+        # alphabet), and the number of classes is 2 or 4: whether NUL needs a transition
+        # table of its own depends on exactly that
+        hi = ("plus", ("ccl", False, [("r", 128, 255), ("c", 0)]))
+        if (i // 8) % 2 == 0:
+            rs_ = [("plus", ("ccl", False, [("r", 1, 127)])), hi]
+        else:
+            rs_ = [("plus", ("ccl", False, [("r", 97, 109)])), ("plus", ("ccl", False, [("r", 110, 122)])),
+                   hi, ("plus", ("ccl", False, [("r", 1, 96), ("r", 123, 127)]))]
+        case["rules"] = [{"scs": None, "bol": False, "pat": x, "trail": None, "act": []} for x in rs_]
+        case["defs"] = []
+        g.alpha = b"amnz \n\x00\x80\xe9\xff\x00\x90"
     f = {"ret": 20, "less": 15, "unput": 10, "unput_alpha": b"a\x00b\x00", "input": 10}
     if any(r.get("bol") for r in case["rules"]):
         f = {"ret": 20}
@@ -78,6 +92,8 @@ def c04_job(chk, rng, i):
     inputs = []
     for k in range(10):
         s = bytearray(g.make_input(case, ctx, maxlen=60))
+        if shared:
+            s += bytes(rng.choice(b"\x80\xe9\xff\x00") for _ in range(rng.rint(2, 6))) + b"am"
         # NULs at chosen places: runs, start, end, before EOF
         for _ in range(rng.rint(1, 4)):
             pos = rng.below(len(s) + 1)
@@ -89,6 +105,8 @@ def c04_job(chk, rng, i):
         sched = rng.choice([[1], [1], [2], [3, 1], [0], [1, 2, 3, 4]])
         inputs.append({"sources": [bytes(s)], "sched": sched})
     tb = rotate(i // 4, TABLES8)
+    if shared:
+        tb = rotate(i // 16, ["-Cfe", "-Cem", "-CFe", "-Ce"])
     inter = rotate(i // 2, [None, True, False])
     if ("f" in tb or "F" in tb) and inter is True:
         inter = False       # documented: -Cf/-CF cannot be interactive
